@@ -9,7 +9,7 @@ def run(tier):
     wd = common.scratch(PID)
     bdir = common.build("plain")
     fams = [("altor", 3), ("subif", 3), ("fmt", 3), ("refeed", 3), ("closure", 3), ("scale", 1)] if tier == "quick" \
-        else [("altor", 3), ("subif", 3), ("fmt", 3), ("refeed", 4), ("closure", 3), ("names", 3), ("scale", 1)]
+        else [("altor", 3), ("subif", 3), ("fmt", 3), ("refeed", 3), ("closure", 3), ("names", 3), ("scale", 1)]      # (refeed at weight 4: more than an hour of generation)
     total = 0
     # mechanism layer (tla/Engine.tla) refines the meaning layer, exhaustively
     mc = [("altor", 3), ("refeed", 2)] if tier == "quick" else [("altor", 3), ("subif", 3), ("fmt", 3), ("refeed", 3)]
